@@ -139,3 +139,20 @@ def c09_l3(**p):
         wellformed(c, text, mol.n, len(mol.bonds))
         c.oblige("string-survives-the-molfile-round-trip", str_eq(s, s2))
     return body
+
+
+def c09_big(**p):
+    """Index width: chains of 12 and 1001 atoms (4-digit indices) with labels on the last atoms; concrete."""
+    def body(c):
+        from harness.domain import Mol
+        n = (12, 1001)[c.choice("size", 2)]
+        extra = [{"x_coord": 0.1 * a, "y_coord": 0.0, "z_coord": -1.0 * a} for a in range(n)]
+        extra[n - 1]["chg"] = -2
+        mol = Mol(["C"] * n, [None] * n, [None] * n, {(a, a + 1): {"bond_type": 1 + a % 2} for a in range(n - 1)}, extra)
+        mol.mass[n - 1] = 14
+        mol.rad[n - 2] = 3
+        g = graph_of(mol.listing())
+        text = T()["write"](g)
+        wellformed(c, text, n, n - 1)
+        compare_graphs(c, g, R.T()["read"](text))
+    return body
